@@ -27,7 +27,7 @@ instance instVecSpaceVector {α : Type} [Scalar α] {n : Nat} : VecSpace α (Vec
 inductive Node where
   | at (k : Nat)
   | final
-deriving DecidableEq, Repr
+deriving DecidableEq, Repr, Inhabited
 
 /-- numerals in generic scalar code -/
 abbrev nat {α : Type} [Scalar α] (n : Nat) : α := (n : α)
